@@ -21,6 +21,22 @@ def build():
     return build_exe("c20", HARNESS, "asan", repo_cpp=REPO_CPP)
 
 
+def build_vrt():
+    return build_vrt_exe("c20v", ["harness/c20_vrt.cpp"], repo_cpp=REPO_CPP)
+
+
+def vrt_driver(drv):
+    """ctx.econc runs the driver without arguments: a wrapper that selects the trace-replay mode"""
+    w = BUILD / "bin" / "drv_C20_vrt.sh"
+    txt = "#!/bin/sh\nexec %s vrt\n" % drv
+    if not w.exists() or w.read_text() != txt:
+        tmp = w.with_suffix(".tmp%d" % os.getpid())
+        tmp.write_text(txt)
+        os.chmod(tmp, 0o755)
+        os.replace(tmp, w)
+    return w
+
+
 def consts():
     """K and table capacity as the translator sees them (generator boundaries follow the source)."""
     txt = (LEAN / "Babylon" / "Gen" / "Log.lean").read_text()
@@ -488,8 +504,121 @@ def close_full_probe(ctx, exe):
     return ok
 
 
+# ---------------------------------------------------------------------------------------------
+# part B under VRT: explored interleavings, lock-step replay through App.step
+VRT_MODES = ["mix", "full", "race", "sessions"]
+
+
+def vrt_features(lines):
+    f = {}
+    ticket, closed, marker, pops, wr = {}, False, False, 0, None
+
+    def hit(k):
+        f[k] = f.get(k, 0) + 1
+    for l in lines:
+        w = l.split()
+        if len(w) < 2:
+            continue
+        t = w[0]
+        if w[1] == "ev" and w[2] == "init":
+            wr, closed, marker = None, False, False
+        elif w[1] == "spawn" and wr is None:
+            wr = w[2]
+        elif w[1] == "rmw" and len(w) > 3 and w[3] == "q.push":
+            ticket[t] = 0
+            if t == "0":
+                marker = True
+            else:
+                if closed:
+                    hit("write_ticket_after_close_began")
+                if marker:
+                    hit("write_ticket_behind_stop_marker")
+        elif w[1] == "ld" and w[2].startswith("q.f") and t in ticket and t != wr:
+            ticket[t] += 1
+            if ticket[t] == 2:
+                hit("producer_waits_on_full_ring")
+        elif w[1] == "st" and w[2].startswith("q.f") and t in ticket and t != wr:
+            del ticket[t]
+        elif w[1] == "ev" and w[2] == "cbegin":
+            closed = True
+        elif t == wr and w[1] == "ld" and w[2] == "q.pop":
+            pops = 0
+        elif t == wr and w[1] == "st" and w[2] == "q.pop":
+            pops += 1
+            if pops == 2:
+                hit("pop_split_by_ring_end")
+        elif w[1] == "ev" and w[2] == "writev":
+            hit("writev")
+            if len(w) > 4 and w[4] == "999999":
+                hit("flush_without_descriptor")
+    return f
+
+
+def run_vrt(ctx, drv):
+    exe, log = build_vrt()
+    if exe is None:
+        ctx.broke("correspondence", "harness/c20_vrt.cpp does not build against /repo", log[-800:])
+        return
+    wdrv = vrt_driver(drv)
+    n = 30 if ctx.quick else 1500
+    if ctx.broken:
+        n *= 3
+    seed0 = ctx.seed * 1000003
+    dist = {"plan": {}, "verdicts": {}, "replay_ok": 0, "replay_diverge": 0, "oracle": 0, "races": 0, "features": {},
+            "stale_reads_served_view_mode": 0, "max_trace": 0}
+    distinct = set()
+    plan = []
+    for m in VRT_MODES:
+        plan += [(m, n, {}), (m, n // 2, {"VRT_STRATEGY": "pct"}), (m, n // 2, {"VRT_MEM": "view"})]
+    for mode, cnt, env in plan:
+        if len(ctx.failing) > 8:
+            break
+        env = dict(env, VRT_STEP_LIMIT="400000")
+        runs = ctx.econc(exe, wdrv, [mode], seed0, cnt, env=env)
+        tag = mode + "".join("/" + v for k, v in sorted(env.items()) if k != "VRT_STEP_LIMIT")
+        dist["plan"][tag] = len(runs)
+        for r in runs:
+            dist["verdicts"][r["verdict"]] = dist["verdicts"].get(r["verdict"], 0) + 1
+            dist["max_trace"] = max(dist["max_trace"], len(r["lines"]))
+            envs = " ".join("%s=%s" % kv for kv in sorted(env.items()))
+            text = "mode=vrt\nvrt %s %d %s\n# %s\n%s" % (mode, r["seed"], envs, " ".join(r["header"]),
+                                                       "\n".join("# " + l for l in r["lines"][-400:]))
+            if r["oracle"]:
+                dist["oracle"] += 1
+                kind = r["oracle"][0].split("ORACLE", 1)[1].split()[0]
+                ctx.failing_input("oracle:vrt:%s" % kind, text + "\n# replay: " + str(r.get("replay")))
+                continue
+            if r["verdict"] != "ok":
+                ctx.failing_input("verdict:vrt:%s" % r["verdict"].split()[0], text + "\n# " + r.get("stderr", "")[-1200:].replace("\n", "\n# "))
+                continue
+            if r["races"]:
+                dist["races"] += 1
+                if dist["races"] <= 3:
+                    ctx.broke("correspondence", "payload race on a queue cell, c20 vrt mode=%s seed=%d" % (mode, r["seed"]), text)
+                continue
+            if r["replay"] and r["replay"].startswith("ok"):
+                dist["replay_ok"] += 1
+            else:
+                dist["replay_diverge"] += 1
+                if dist["replay_diverge"] <= 6:
+                    ctx.broke("correspondence", "E-CONC appender lock-step mode=%s seed=%d" % (mode, r["seed"]), "%s\n%s" % (r["replay"], text))
+            ft = vrt_features(r["lines"])
+            for k in ft:
+                dist["features"][k] = dist["features"].get(k, 0) + 1
+            for l in r["lines"]:
+                if " ev stats " in l:
+                    m = re.search(r"stale (\d+)", l)
+                    dist["stale_reads_served_view_mode"] += int(m.group(1)) if m else 0
+            if any(k != "writev" for k in ft):
+                distinct.add(sha("\n".join(l for l in r["lines"] if " ev stats" not in l)))
+    ctx.cov["distribution"]["appender_vrt"] = dist
+    ctx.cov["distinct_nontrivial"] += len(distinct)
+    ctx.cov["traces_validated_lockstep"] = dist["replay_ok"]
+
+
 def run(ctx):
     ctx.cov["trusted_base"] += [
+        "vrt/vrt.cpp (TSan-ABI interposition, deterministic scheduler, virtual time, view-mode memory) and the TSan-instrumented build of the appender and its queue (DESIGN 3.3)",
         "libstdc++ basic_streambuf::xsputn/sputc are transcribed by hand (Stream.sputnLoop / Buf.putc); LogStreamBuffer overrides only overflow and sync",
         "page allocator: pages are fresh, disjoint, 8-aligned blocks of exactly page_size bytes (C17); a page is identified with the allocate() call that returned it",
         "writev is assumed to write every iovec completely and in order (short writes / I/O errors are not modelled; the code ignores writev's result)",
@@ -521,7 +650,9 @@ def run(ctx):
     run_entry(ctx, exe, drv)
     ctx.log("part A correspondence done")
     run_appender(ctx, exe, drv)
-    ctx.log("part B runs done")
+    ctx.log("part B native runs done")
+    run_vrt(ctx, drv)
+    ctx.log("part B VRT lock-step done")
     ctx.cov["rule"] = (
         "part A (E-SEQ): cases = one recording allocator of page size ps + a sequence of entries streamed through ONE LogStreamBuffer "
         "(begin; chunked sputn / sputc / pubsync; end; discard). Total lengths: every length 0..(K+2E+2)*ps for ps in {24,32} as a single "
@@ -541,7 +672,18 @@ def run(ctx):
         "pre-built one-page entries, own process, 90 s timeout: a ticket claimed twice loses an entry and wedges the writer); "
         "oracle: every entry exactly once, intact, within one descriptor, per-thread order (per file and across rounds), all pages "
         "returned, no bad free, writev <= IOV_MAX; then the recorded rounds (writev/deallocate/descriptor-check calls) are replayed "
-        "event by event through App.step and must equal the model's flushes. Non-trivial run: >= 2 threads and >= 20 entries.")
+        "event by event through App.step and must equal the model's flushes. Non-trivial run: >= 2 threads and >= 20 entries. "
+        "part B under VRT (explored interleavings, E-CONC): harness/c20_vrt.cpp runs the real appender with 1-4 logging threads + the "
+        "writer thread + close() under the deterministic scheduler (every atomic operation of the queue is a scheduling point; random "
+        "with stickiness, PCT, and VRT_MEM=view with stale reads), modes mix / full (capacity 1-2: producers hold a ticket while the "
+        "ring is full) / race (close() while the threads are still writing, tickets behind the stop marker) / sessions (two "
+        "initialize-close cycles), with rotation, descriptor outages and discards; the trace (ticket fetch_add, slot publication, "
+        "pop-index stores, descriptor checks, writev calls with page ids, page returns, close begin/end) is replayed in lock-step "
+        "through App.step: every reserve/publish/close/round must be enabled in the model (batch bound, only published tickets "
+        "popped, one descriptor per destination) and each round's flushes and page returns must equal the model's; the property "
+        "oracle (each entry once, intact, per-thread order, written-before-close present, no page returned twice / lost) runs on the "
+        "same executions, view mode included. Non-trivial VRT run: shows back-pressure, a split pop, a ticket after close began / "
+        "behind the marker, or a flush without descriptor; distinct by trace hash.")
     ctx.cov["traces_validated_against_impl"] = ctx.cov["evaluations"]
     ctx.cov["proof_vs_sampling"] = {
         "proof (Lean, all inputs)": [
@@ -557,6 +699,8 @@ def run(ctx):
             "part B model<->code: OS-scheduled multi-threaded runs; per run the oracle on the files read back and the replay of the "
             "recorded rounds through App.step; the order of write() tickets is reconstructed from the output (per-thread order is "
             "checked independently by the oracle), so the replay validates batching/chunking/flush/page-return, not queue fairness",
+            "part B model<->code under VRT: seeded explored interleavings (random, PCT, view-mode stale reads), lock-step through App.step; "
+            "still sampling of schedules, but at the granularity of single atomic operations and reproducible from (mode, seed)",
             "close() on a full queue: one fixed schedule per run",
             "write() contention: native threads from a spin barrier (about 16 thousand back-to-back pushes per quick check), pinned in "
             "addition by gen_queue_pairing (writePushConcurrent/closePushConcurrent = true)",
@@ -577,6 +721,23 @@ def replay(ctx, path):
     if exe is None or drv is None:
         print(log[-2000:])
         return 1
+    if mode == "vrt":
+        vexe, vlog = build_vrt()
+        if vexe is None:
+            print(vlog[-2000:])
+            return 1
+        bad = False
+        for line in lines:
+            w = line.split()
+            if len(w) < 3 or w[0] != "vrt":
+                continue
+            env = dict(kv.split("=", 1) for kv in w[3:] if "=" in kv)
+            runs = ctx.econc(vexe, vrt_driver(drv), [w[1]], int(w[2]), 1, env=env)
+            for r in runs:
+                print("\n".join(r["lines"][-120:]))
+                print("verdict %s  replay %s  oracle %s" % (r["verdict"], r["replay"], r["oracle"]))
+                bad |= r["verdict"] != "ok" or bool(r["oracle"]) or not (r["replay"] or "").startswith("ok")
+        return 1 if bad else 0
     if mode == "appender":
         bad = False
         for line in lines:
@@ -629,3 +790,4 @@ MANIFEST = {
 
 def warm():
     build()
+    build_vrt()
